@@ -10,6 +10,7 @@
 From Coq Require Import ZArith NArith Bool List.
 From PcoreV Require Import Model.Base Model.Heap Model.Coll Model.CollHeap
      Proofs.HeapProofs Proofs.CollHeapProofs Proofs.CollHeapDecide Proofs.CollHeapFrame
+     Model.CollHeapX Proofs.CollHeapXProofs
      Model.Ty Model.InferHeap Proofs.InferHeapProofs.
 Import ListNotations.
 
@@ -85,6 +86,68 @@ Example C08_uncapped_append_breaks_frame :
   observe obs_fuel (st_heap st1) (P (st_pool st1) 3) = PArr [PInt 1%Z; PInt 2%Z] /\
   observe obs_fuel (st_heap st2) (P (st_pool st2) 3) = PArr [PInt 1%Z; PInt 3%Z].
 Proof. exact uncapped_append_breaks_frame. Qed.
+
+(* ----------------------------------------------------------------------------------------------------------------
+   Construction routes that SHARE ENTRY OBJECTS (Model/CollHeapX.v): histories in which, besides every operation above,
+   a step may be Hash.new(tree, 'tree' | 'hash_tree') - a root element [[], h] hands the entry objects of h to the
+   result, path elements descend through the hashes the call has made itself (after fix 4f15f12: never into a hash that
+   arrives as a value), values are put as they are - or MapEntries (a many-to-one mapper: the result holds an equal
+   key several times; or the identity: the result holds the receiver's entry objects).  The same theorems hold. *)
+Theorem C08_x_step_extends :
+  forall (g : nat -> nat -> nat) (st : hstate) (o : xop), state_wf st ->
+    exists ext, st_heap (fst (xstep g st o)) = st_heap st ++ ext.
+Proof. exact xstep_prefix. Qed.
+Print Assumptions C08_x_step_extends.
+
+Theorem C08_x_wf_invariant :
+  forall g ops, state_wf (fst (xrun g empty_state ops)).
+Proof. intros g ops. apply xrun_wf, empty_wf. Qed.
+Print Assumptions C08_x_wf_invariant.
+
+Theorem C08_x_frame :
+  forall (g : nat -> nat -> nat) (ops : list xop) (st : hstate), state_wf st ->
+  forall (fuel : nat) (x : hval), In x (st_pool st) ->
+    observe fuel (st_heap (fst (xrun g st ops))) x = observe fuel (st_heap st) x.
+Proof. exact xframe. Qed.
+Print Assumptions C08_x_frame.
+
+Theorem C08_x_final_obs_stable :
+  forall g ops1 ops2,
+    firstn (length ops1) (final_obs (fst (xrun g empty_state (ops1 ++ ops2)))) =
+    final_obs (fst (xrun g empty_state ops1)).
+Proof. exact xfinal_obs_stable. Qed.
+Print Assumptions C08_x_final_obs_stable.
+
+Theorem C08_x_results_stable :
+  forall g ops,
+    Forall2 out_matches (snd (xrun g empty_state ops)) (final_obs (fst (xrun g empty_state ops))).
+Proof. intros g ops. exact (xresults_stable g ops empty_state empty_wf). Qed.
+Print Assumptions C08_x_results_stable.
+
+(* the histories of the first part are the extended histories that do not use the two routes *)
+Theorem C08_x_extends_base :
+  forall g ops st, xrun g st (map XBase ops) = hrun g st ops.
+Proof. exact xrun_base. Qed.
+Print Assumptions C08_x_extends_base.
+
+(* Non-vacuity and sensitivity: Hash.new([[[], h], [['a'], 99]], 'tree') with h = {a=>1, b=>2}: the result is
+   {a=>99, b=>2} (it shares the entry object of b with h) and h is what it was; with a Put that assigns the value field
+   of the entry object it finds (the defect class of the seeded change C08-m6) h itself becomes {a=>99, b=>2}. *)
+Example C08_put_in_place_breaks_frame :
+  let a := PStr [97%N] in let b := PStr [98%N] in
+  let ops := [XBase (OLit (PHash [(a, PInt 1); (b, PInt 2)]));
+              XBase (OLit (PArr [PArr []])); XBase (OAdd 1 0);
+              XBase (OLit (PArr [PArr [PArr [a]; PInt 99]]));
+              XBase (OLit (PArr [])); XBase (OAdd 4 2); XBase (OAddAll 5 3);
+              XHashNew 6 false] in
+  let st := fst (xrun grow_exact empty_state ops) in
+  observe obs_fuel (st_heap st) (P (st_pool st) 7) = PHash [(a, PInt 99); (b, PInt 2)]%Z /\
+  observe obs_fuel (st_heap st) (P (st_pool st) 0) = PHash [(a, PInt 1); (b, PInt 2)]%Z /\
+  match P (st_pool st) 0 with
+  | HHash s => observe obs_fuel (put_in_place (st_heap st) s 0 (HInt 99)) (P (st_pool st) 0)
+  | _ => PNil
+  end = PHash [(a, PInt 99); (b, PInt 2)]%Z.
+Proof. exact put_in_place_breaks_frame. Qed.
 
 (* ================================================================================================================
    Results that are TYPES.  "Inferring its type" is one of the operations of the property, and the type object it
